@@ -46,10 +46,21 @@ package objectsets
 //@   at teardownPhase#1 assert [C04] arg2.Name == old(slice_of("package-operator.run/apis/core/v1alpha1.ObjectSetTemplatePhase", phasesOf(objectSet))[len(phasesOf(objectSet)) - 1 - idx].Name)
 //@   ensures [C04] cleanupDone && err == nil ==> old(finalizers(clientObj(objectSet))["orphan"]) || !tdPending()
 
-//@ props C04,C14
+//@ props C04,C06,C14
 //@ func package-operator.run/internal/controllers/objectsets.(*GenericObjectSetController).handleDeletionAndArchival
 //@   requires [C04] !tdPending()
+//@   ensures [C06] condSt(condsPtr(objectSet), "Available") == 0
 //@   at FreeCacheAndRemoveFinalizer#1 assert [C04] !old(finalizers(clientObj(objectSet))["package-operator.run/cached"]) || !tdPending()
+
+//@ props C15
+// status.remotePhases records the delegated phase object under its current UID (adoption from a delegated previous
+// revision matches owner references by name and UID against this list)
+//@ func package-operator.run/internal/controllers/objectsets.addRemoteObjectSetPhase
+//@   ensures [C15] exists k int :: 0 <= k && k < len(result) && result[k].Name == ref.Name && result[k].UID == ref.UID
+//@   ensures [C15] forall k int :: 0 <= k && k < len(refs) && old(refs[k].Name) != ref.Name ==> result[k] == old(refs[k])
+//@   ensures [C15] len(result) >= len(refs)
+//@   loop 1 invariant 0 <= idx && idx <= len(refs) && gomem_unchanged()
+//@   loop 1 invariant forall k int :: 0 <= k && k < idx ==> refs[k].Name != ref.Name
 
 //@ props C03,C15
 //@ func package-operator.run/internal/controllers/objectsets.(*objectSetRemotePhaseReconciler).Reconcile
@@ -69,3 +80,20 @@ package objectsets
 //@   loop 2 invariant gomem_unchanged()
 //@   loop 3 invariant gomem_unchanged()
 //@   loop 4 invariant gomem_unchanged()
+
+//@ props C14
+// every ObjectSlice named by a phase is read (and its objects appended to that phase) before the pass goes on
+//@ func package-operator.run/internal/controllers/objectsets.(*objectSliceLoadReconciler).Reconcile
+//@   at Client.Get#1 ghost sliceFetched(slice) := true
+//@   sink Client.Update#1 requires [C14] true
+//@   ensures [C14] err == nil ==> (forall i int, j int :: 0 <= i && i < old(len(slice_of("package-operator.run/apis/core/v1alpha1.ObjectSetTemplatePhase", phasesOf(objectSet)))) && 0 <= j && j < len(old(slice_of("package-operator.run/apis/core/v1alpha1.ObjectSetTemplatePhase", phasesOf(objectSet))[i].Slices)) ==> sliceFetched(old(slice_of("package-operator.run/apis/core/v1alpha1.ObjectSetTemplatePhase", phasesOf(objectSet))[i].Slices[j])))
+//@   loop 1 invariant 0 <= idx && idx <= len(phases)
+//@   loop 1 invariant forall i int :: 0 <= i && i < len(phases) ==> phases[i].Slices == old(phases[i].Slices)
+//@   loop 1 invariant forall i int, j int :: 0 <= i && i < len(phases) && 0 <= j && j < len(phases[i].Slices) ==> phases[i].Slices[j] == old(phases[i].Slices[j])
+//@   loop 1 invariant forall i int, j int :: 0 <= i && i < idx && 0 <= j && j < len(phases[i].Slices) ==> sliceFetched(phases[i].Slices[j])
+//@   loop 2 invariant phase.Slices == loopentry(phase.Slices)
+//@   loop 2 invariant forall i int :: 0 <= i && i < len(phases) ==> phases[i].Slices == old(phases[i].Slices)
+//@   loop 2 invariant forall i int, j int :: 0 <= i && i < len(phases) && 0 <= j && j < len(phases[i].Slices) ==> phases[i].Slices[j] == old(phases[i].Slices[j])
+//@   loop 2 invariant 0 <= idx && idx <= len(phase.Slices)
+//@   loop 2 invariant forall i int, j int :: 0 <= i && i < idx1 && 0 <= j && j < len(phases[i].Slices) ==> sliceFetched(phases[i].Slices[j])
+//@   loop 2 invariant forall j int :: 0 <= j && j < idx ==> sliceFetched(phase.Slices[j])
